@@ -424,9 +424,45 @@ def lean_list2(rows):
     return '[' + ', '.join('[' + ', '.join(str(x) for x in r) + ']' for r in rows) + ']'
 
 
+# --------------------------------------------------------------------------
+# ref_endian.h byte-swap macros
+# --------------------------------------------------------------------------
+def gen_endian(repo):
+    src = strip_comments(read(repo, 'src/ref_endian.h')).replace('\\\n', ' ')
+    out = [HEADER % 'src/ref_endian.h', 'namespace Refine.Gen.Endian', '']
+    widths = {'SWAP_INT': 4, 'SWAP_LONG': 8, 'SWAP_DBL': 8}
+    for name, width in widths.items():
+        m = re.search(r'#define\s+%s\(x\)\s+\{(.*?)\}' % name, src, re.S)
+        if not m:
+            raise TranslateError('macro %s not found in ref_endian.h' % name)
+        body = m.group(1)
+        stmts = [x.strip() for x in body.split(';') if x.strip()]
+        perm = {}
+        for st in stmts:
+            st = re.sub(r'\s+', ' ', st)
+            if re.fullmatch(r'(int|long|double) y', st):
+                continue
+            if st in ('char *xp = (char *)&(x)', 'char *yp = (char *)&(y)', '(x) = y'):
+                continue
+            mm = re.fullmatch(r'\*\(yp \+ (\d+)\) = \*\(xp \+ (\d+)\)', st)
+            if not mm:
+                raise TranslateError('unsupported statement in %s: %r' % (name, st))
+            dst, srcb = int(mm.group(1)), int(mm.group(2))
+            if dst in perm:
+                raise TranslateError('%s writes byte %d twice' % (name, dst))
+            perm[dst] = srcb
+        if sorted(perm) != list(range(width)):
+            raise TranslateError('%s does not write bytes 0..%d exactly once: %s' % (name, width - 1, sorted(perm)))
+        out.append('/-- `%s`: output byte `i` is input byte `%s[i]` -/' % (name, name.lower()))
+        out.append('def %s : List Nat := [%s]\n' % (name.lower(), ', '.join(str(perm[i]) for i in range(width))))
+    out.append('end Refine.Gen.Endian')
+    return '\n'.join(out) + '\n'
+
+
 GENERATORS = {
     'PartMacros.lean': gen_part_macros,
     'CellTables.lean': gen_cell_tables,
+    'Endian.lean': gen_endian,
 }
 
 
